@@ -106,6 +106,11 @@ pub enum Place {
     Right,
     /// somewhere inside, at this offset from a 64-byte boundary
     Mid(u8),
+    /// at the address of an earlier buffer of at least this length: the same
+    /// memory holding different bytes at different times (a read buffer that
+    /// is refilled). `Op::Refill` writes this buffer's bytes there; until
+    /// then, and after a `Refill` of the other one, it must not be used.
+    Over(usize),
 }
 
 #[derive(Serialize, Deserialize, Clone, Debug)]
@@ -218,6 +223,10 @@ pub enum Op {
     FinderOwn { f: Slot },
     /// the caller frees the needle buffer (legal once nothing borrows it)
     KillNeedle { buf: BufId },
+    /// the caller overwrites the memory this buffer shares with another one
+    /// (`Place::Over`) with this buffer's bytes; legal while nothing borrows
+    /// either of them
+    Refill { buf: BufId },
 
     // ----- substring iterators ---------------------------------------------
     /// `f.find_iter(hay)` / `f.rfind_iter(hay)` (finder in slot `f`), or the
@@ -262,6 +271,15 @@ pub enum Op {
     Cmp { f: CmpFn, a: BufId, b: BufId },
     PairNew { needle: BufId, ranker: Ranker },
     PairIdx { needle: BufId, i1: u8, i2: u8 },
+
+    // ----- multi-GiB haystacks (zero pages, a few bytes patched) -------------
+    /// `count` of the byte 0 over `len` zero bytes with the bytes at `holes`
+    /// set to 1: must be exactly `len - holes.len()` (counters narrower than
+    /// usize wrap at 2^32)
+    HugeCount { be: Backend, len: u64, holes: Vec<u64> },
+    /// `find_iter` over `len` zero bytes with `needle` planted at `at`: must
+    /// yield `at` and then None (totals kept in 32 bits overflow past 4 GiB)
+    HugeFindIter { needle: BufId, len: u64, at: u64 },
 
     // ----- composite operations --------------------------------------------
     /// C09: the same byte search on every backend type available in this
